@@ -187,6 +187,15 @@ func (e *Env) Push(u tg.UpdatesClass) {
 	}
 }
 
+// Affected hands a messages.affected* result to Manager.HandleAffected.
+func (e *Env) Affected(channelID int64, pts, count int) {
+	ctx, cancel := context.WithTimeout(context.Background(), 10*time.Second)
+	defer cancel()
+	if err := e.M.HandleAffected(ctx, channelID, pts, count); err != nil && e.Err == "" {
+		e.Err = "Manager.HandleAffected: " + err.Error()
+	}
+}
+
 // mainBarrier returns once the main loop has handled everything pushed before.
 func (e *Env) mainBarrier() bool {
 	e.mu.Lock()
